@@ -447,7 +447,7 @@ fn same_int(a: &str, b: &str) -> bool {
 pub fn run(tier: &str) -> Run {
     let mut run = Run::new("C02", tier);
     let g = corpus::grammar();
-    let cases = build(&g, tier == "thorough");
+    let cases = build(&g, crate::util::wide(tier));
     let res = par_map(cases.len(), &|i| eval(&g, &cases[i]), &|i| {
         println!("MACHINERY-ERROR: C02 case hangs: {}", cases[i].case.label);
         std::process::exit(2);
